@@ -35,6 +35,9 @@ func c04HierCases(tier string) int {
 
 const c04PairsPerHierCase = 10
 
+// c04MatrixPerHierCase: scalar kind pairs applied alone per hierarchy case (32 quick cases × 7 ≥ the 210 ordered pairs)
+const c04MatrixPerHierCase = 7
+
 var c04AllCfgs = func() []c03Cfg {
 	var out []c03Cfg
 	for _, v := range c03Versions {
@@ -248,14 +251,50 @@ func c04Hierarchy(c *core.C, idx int) {
 			singles = append(singles, op)
 		}
 	}
-	for p := 0; p < c04PairsPerHierCase+len(singles); p++ {
+	// the scalar type-change matrix, one ordered pair of kinds at a time and alone: the categories differ exactly
+	// in which pairs they tolerate (wire groups vs wire+JSON groups vs identity), so a pair that one table
+	// tolerates and a laxer one does not is a hole in the implication chain that mixed edits mask
+	nPairsOfKinds := len(c03Scalars) * (len(c03Scalars) - 1)
+	var scalarOp *c03Op
+	for _, op := range c03Catalogue {
+		if op.Name == "field-type-scalar-to-scalar" {
+			scalarOp = op
+		}
+	}
+	for p := 0; p < c04PairsPerHierCase+len(singles)+c04MatrixPerHierCase; p++ {
 		ns := s.Clone()
 		env := &c03Env{R: c.Rand, Old: oldIdx, Hint: -1}
 		var applied []string
+		if p >= c04PairsPerHierCase+len(singles) {
+			if scalarOp == nil {
+				continue
+			}
+			q := (idx*c04MatrixPerHierCase + p - c04PairsPerHierCase - len(singles)) % nPairsOfKinds
+			from := c03Scalars[q/(len(c03Scalars)-1)]
+			env.New, env.Hint = c03Index(ns), q%(len(c03Scalars)-1)
+			var sites []c03Site
+			for _, f := range env.New.Fields() {
+				if !isWKTCopy(f.Msg.File) && f.F.Kind == "scalar" && f.F.Type == from {
+					sites = append(sites, fieldSite(f))
+				}
+			}
+			if len(sites) == 0 {
+				c.Count("hierarchy_matrix_no_site", 1)
+				continue
+			}
+			if exp := scalarOp.Apply(env, sites[c.Rand.IntN(len(sites))]); len(exp) == 0 {
+				continue
+			}
+			applied = append(applied, "type:"+env.Tag)
+			c.Count("hierarchy_matrix_pairs", 1)
+			c.Distinct("hierarchy_type_pairs", env.Tag)
+		}
 		// stratified: aim at a reach class (0 = additive only) so that every implication meets clean antecedents
 		target := c.Rand.IntN(5)
 		rounds := 1 + c.Rand.IntN(3)
-		if p >= c04PairsPerHierCase {
+		if p >= c04PairsPerHierCase+len(singles) {
+			rounds = 0
+		} else if p >= c04PairsPerHierCase {
 			rounds = 0
 			op := singles[p-c04PairsPerHierCase]
 			env.New = c03Index(ns)
@@ -376,7 +415,7 @@ func init() {
 		},
 		Cases: func(tier string) int { return c04Chains(tier) + c04HierCases(tier) },
 		Run:   c04Run,
-		Required: []string{"hierarchy_single_reservation_ops", "chain_pairs", "self_pairs", "relayout_pairs", "hierarchy_pairs", "hier:----", "hier:F---", "hier:FP--", "hier:FPJ-", "hier:FPJW",
+		Required: []string{"hierarchy_single_reservation_ops", "hierarchy_matrix_pairs", "chain_pairs", "self_pairs", "relayout_pairs", "hierarchy_pairs", "hier:----", "hier:F---", "hier:FP--", "hier:FPJ-", "hier:FPJW",
 			"implication_nonvacuous:FILE=>PACKAGE", "implication_nonvacuous:PACKAGE=>WIRE_JSON", "implication_nonvacuous:WIRE_JSON=>WIRE", "additive_operators"},
 	})
 }
